@@ -9,4 +9,5 @@ open PgmVerif
 #print axioms PgmVerif.C12_nonadjacent_separable
 #print axioms PgmVerif.C12_toDag_acyclic
 #print axioms PgmVerif.C12_toDag_keeps_directed
+#print axioms PgmVerif.C12_toDag_only_orients
 #print axioms PgmVerif.C12_meek_rules_sound
